@@ -7,6 +7,7 @@ import PMV.Driver.Rename
 import PMV.Driver.Minify
 import PMV.Driver.PyCore
 import PMV.Driver.Exports
+import PMV.Driver.Layout
 open PMV
 
 def dispatch (cmd : String) (args : List Sexp) : Option String :=
@@ -29,6 +30,7 @@ def dispatch (cmd : String) (args : List Sexp) : Option String :=
   | "min.full" => Driver.PyCore.minFull args
   | "exports.findall" => Driver.Exports.findAllCmd args
   | "inplace.fn" => Driver.InPlace.fnCmd args
+  | "layout.check" => Driver.Layout.check args
   | "hoist.place" => Driver.Rename.hoistPlace args
   | "rename.assign" => Driver.Rename.assignCmd args
   | "ministring" => Driver.Strings.ministring args
